@@ -305,7 +305,11 @@ Inductive event :=
 | EElapse (dt : N)                              (* clock advances, then wake() *)
 | ECmdAnnounceRefs (rid : N)
 | ECmdAddInventory (rid : N)
-| ETick (now : N).                              (* Service::tick: a clock reading, possibly in the past *)
+| ETick (now : N)                               (* Service::tick: a clock reading, possibly in the past *)
+| ERestart                                      (* Service::initialize again, at the current clock *)
+| ESetDoc (rid : N) (d : doc).                  (* the identity document of a local repository changes
+                                                   (e.g. public -> private); affects the configuration
+                                                   of the following events, see [next_cfg] *)
 
 (* Outbox::announce for our own announcements *)
 Definition announce_own (c : config) (s : state) (a : ann) (peers : list N) : outcome :=
@@ -374,6 +378,11 @@ Definition wake (c : config) (s : state) : outcome :=
     end
   else Ok s1 o1.
 
+(* seeded local repositories by visibility (storage.repositories() filtered by is_seeding) *)
+Definition local_repos (c : config) (public_ones : bool) : list N :=
+  map fst (filter (fun kd => memN (fst kd) (c_seeded c) && Bool.eqb (d_public (snd kd)) public_ones)
+             (c_storage c)).
+
 Definition step (c : config) (s : state) (e : event) : outcome :=
   match e with
   | EConnect p =>
@@ -439,6 +448,29 @@ Definition step (c : config) (s : state) (e : event) : outcome :=
       (* `if now >= self.clock { self.clock = now }` — earlier readings are ignored *)
       Ok (set_times s (if N.leb (clock s) now then now else clock s)
                     (last_inventory s) (last_gossip s) (last_announce s)) []
+  | ERestart =>
+      (* Service::initialize: seeded local repositories are split into public (inventory) and
+         private; the public ones are (re-)recorded in the routing table, a fresh inventory
+         announcement is cached, then the private ones are removed from our routing entries *)
+      let pub := local_repos c true in
+      let priv := local_repos c false in
+      let rt1 := fold_left (fun t rid => fst (route_add rid (c_me c) (clock s) t)) pub (routing s) in
+      let '(s1, ts) := draw (set_routing s rt1) in
+      let s2 := set_inventory s1 ts pub in
+      Ok (set_routing s2 (fold_left (fun t rid => route_remove rid (c_me c) t) priv (routing s2)))
+         [ODraw ts]
+  | ESetDoc _ _ => Ok s []
+  end.
+
+(* the configuration in force after an event: only ESetDoc changes it *)
+Definition next_cfg (c : config) (e : event) : config :=
+  match e with
+  | ESetDoc rid d =>
+      match lookup rid (c_storage c) with
+      | Some _ => mkCfg (c_me c) (c_relay c) (insert rid d (c_storage c)) (c_seeded c) (c_own_refs c)
+      | None => c
+      end
+  | _ => c
   end.
 
 (* run a trace, collecting the outputs of every step *)
@@ -449,7 +481,7 @@ Fixpoint run (c : config) (s : state) (es : list event) : option (state * list (
       match step c s e with
       | Panic _ => None
       | Ok s1 o =>
-          match run c s1 es' with
+          match run (next_cfg c e) s1 es' with
           | Some (s2, os) => Some (s2, o :: os)
           | None => None
           end
@@ -491,12 +523,32 @@ Fixpoint insert_sorted {A} (leb : A -> A -> bool) (x : A) (l : list A) : list A 
 Definition sort_by {A} (leb : A -> A -> bool) (l : list A) : list A :=
   fold_right (insert_sorted leb) [] l.
 
-Definition step_obs := (list (N * (N * (N * (N * N)))) * list N)%type.
+(* own inventory announcements of a step: (recipient, sorted inventory) *)
+Definition proj_inv (me : N) (o : out) : list (N * list N) :=
+  match o with
+  | OWrite p a _ =>
+      if N.eqb (a_node a) me && kind_eqb (a_kind a) KInv then [(p, sort_by N.leb (a_inv a))] else []
+  | _ => []
+  end.
+Fixpoint listN_leb (a b : list N) : bool :=
+  match a, b with
+  | [], _ => true
+  | _ :: _, [] => false
+  | x :: a', y :: b' => if N.ltb x y then true else if N.ltb y x then false else listN_leb a' b'
+  end.
+Definition inv_leb (x y : N * list N) : bool :=
+  if N.ltb (fst x) (fst y) then true else if N.ltb (fst y) (fst x) then false
+  else listN_leb (snd x) (snd y).
+
+Definition step_obs := (list (N * (N * (N * (N * N)))) * list N * list (N * list N))%type.
 (* typed constructors: cases files elaborate much faster without pair inference *)
 Definition w5 (a b c d e : N) : N * (N * (N * (N * N))) := (a, (b, (c, (d, e)))).
-Definition mkStep (w : list (N * (N * (N * (N * N))))) (d : list N) : step_obs := (w, d).
-Definition obs_of (o : list out) : step_obs :=
-  (sort_by w5_leb (flat_map proj_write o), sort_by N.leb (flat_map proj_disc o)).
+Definition mkInv (p : N) (l : list N) : N * list N := (p, l).
+Definition mkStep (w : list (N * (N * (N * (N * N))))) (d : list N) (i : list (N * list N))
+  : step_obs := (w, d, i).
+Definition obs_of (me : N) (o : list out) : step_obs :=
+  (sort_by w5_leb (flat_map proj_write o), sort_by N.leb (flat_map proj_disc o),
+   sort_by inv_leb (flat_map (proj_inv me) o)).
 
 (* final gossip table: (node, kind code, rid, ts, relay class: 0 dont, 1 relay, 2 relayed) *)
 Definition row_obs (r : row) : N * (N * (N * (N * N))) :=
@@ -516,17 +568,19 @@ Definition g_run (cs : gcase) : gobs :=
   | GTrace c now nts inv known0 es =>
       match run c (init_state c now nts inv known0) es with
       | None => GPanicked
-      | Some (s, os) => GRun (map obs_of os) (sort_by w5_leb (map row_obs (gossip s)))
+      | Some (s, os) => GRun (map (obs_of (c_me c)) os) (sort_by w5_leb (map row_obs (gossip s)))
       end
   | GConsts => GConstsAre MAX_TIME_DELTA GOSSIP_INTERVAL ANNOUNCE_INTERVAL
   end.
 
 Definition w5_eqb := prod_eqb N.eqb (prod_eqb N.eqb (prod_eqb N.eqb (prod_eqb N.eqb N.eqb))).
+Definition step_obs_eqb : step_obs -> step_obs -> bool :=
+  prod_eqb (prod_eqb (list_eqb w5_eqb) (list_eqb N.eqb)) (list_eqb (prod_eqb N.eqb (list_eqb N.eqb))).
 Definition gobs_eqb (x y : gobs) : bool :=
   match x, y with
   | GPanicked, GPanicked => true
   | GRun s t, GRun s' t' =>
-      list_eqb (prod_eqb (list_eqb w5_eqb) (list_eqb N.eqb)) s s' && list_eqb w5_eqb t t'
+      list_eqb step_obs_eqb s s' && list_eqb w5_eqb t t'
   | GConstsAre a b c, GConstsAre a' b' c' => N.eqb a a' && N.eqb b b' && N.eqb c c'
   | _, _ => false
   end.
